@@ -711,7 +711,7 @@ func c14files(format string, thorough bool, fn func(File)) {
 	red := itemAlphabet(format, true)
 	var ls []Layout
 	if format == "jsonline" {
-		ls = []Layout{{FinalNL: true, JSON: "lines"}, {FinalNL: false, Blank: true, Surround: true, JSON: "pretty"}, {FinalNL: true, JSON: "array"}, {FinalNL: false, Blank: true, JSON: "arraypretty"}}
+		ls = []Layout{{FinalNL: true, JSON: "lines"}, {FinalNL: false, Blank: true, Surround: true, JSON: "pretty"}, {FinalNL: true, JSON: "array"}, {FinalNL: false, Blank: true, JSON: "arraypretty"}, {FinalNL: true, JSON: "lines-omit"}}
 	} else {
 		ls = []Layout{{FinalNL: true}, {FinalNL: false, Blank: true, Surround: true}}
 	}
